@@ -112,6 +112,7 @@ class Oracles:
     def after_reset(self, out, post, first):
         sim, cfg, env = self.sim, self.cfg, self.sim.env
         init = model.initial_status(cfg)
+        sim._last_episode_status = post
         if self.P("C10"):
             self._c10_reset_tuple(out)
         obs = out[0] if isinstance(out, tuple) and len(out) >= 1 else None
@@ -196,7 +197,11 @@ class Oracles:
         sim, cfg, env = self.sim, self.cfg, self.sim.env
         act = self.act(obj)
         cur = env.current_state
+        if self.P("C04"):
+            self._c04_between_ops(cur)
         plain_x = plain if sim.table.flat else list(plain)
+        if getattr(obj, "_dsim_custom", False):
+            plain_x = obj       # a self-built Action object: use it everywhere
         lo = hi = None
         if self.twins and act.kind != "noop":
             lo, hi = self._twins(cur, obj, plain_x, act)
@@ -266,6 +271,7 @@ class Oracles:
         if self.P("C11"):
             self._c11_mask()
         sim.cur_sid = sim.keep_state(env.current_state)
+        sim._last_episode_status = post
         if done or trunc:
             sim.episode_over = True
             if done:
@@ -613,6 +619,23 @@ class Oracles:
         if not np.array_equal(rec["state_obj"].tensor, rec["pre_t"]):
             self.fail("C04.monotone", "the step modified its input state "
                       "in place", action=rec["act"]._asdict())
+
+    def _c04_between_ops(self, cur):
+        """Between two step()/reset() calls of an episode nothing may take
+        progress away: the state the environment holds now is compared with
+        the one it held after the previous step/reset."""
+        sim = self.sim
+        last = getattr(sim, "_last_episode_status", None)
+        if last is None:
+            return
+        now = sim_read(sim, cur)
+        for h in self.cfg.order:
+            a, b = last[h], now[h]
+            if b[0] < a[0] or b[1] < a[1] or b[2] < a[2] or b[3] < a[3]:
+                self.fail("C04.monotone", "between two steps of an episode "
+                          "(no reset in between) a host lost compromised / "
+                          "reachable / discovered status or access",
+                          host=h, before=a, after=b)
 
     def _c04_config(self, state, where):
         """Address, OS, services, processes, value, discovery value of every
@@ -1383,7 +1406,8 @@ class Oracles:
                        lambda: env.network.get_total_discovery_value(),
                        lambda: env.network.get_total_sensitive_host_value(),
                        lambda: env.scenario.host_value_bounds,
-                       lambda: env.action_space.sample()):
+                       lambda: env.action_space.sample(),
+                       env.generate_initial_state):
                 try:
                     fn()
                 except Exception:
